@@ -22,6 +22,7 @@ import (
 	"github.com/libp2p/go-libp2p/core/transport"
 	basichost "github.com/libp2p/go-libp2p/p2p/host/basic"
 	"github.com/libp2p/go-libp2p/p2p/host/eventbus"
+	"github.com/libp2p/go-libp2p/p2p/net/swarm"
 	"github.com/libp2p/go-libp2p/p2p/protocol/circuitv2/client"
 	"github.com/libp2p/go-libp2p/p2p/protocol/circuitv2/relay"
 	"github.com/libp2p/go-libp2p/p2p/protocol/holepunch"
@@ -411,6 +412,55 @@ func (h *hpHost) Connect(ctx context.Context, pi peer.AddrInfo) error {
 	return h.BasicHost.Connect(ctx, pi)
 }
 
+// scriptedDNS is A's network.MultiaddrDNSResolver: /dnsaddr names expand to scripted multiaddrs (as a TXT
+// record would), /dns4 names to an IP. It never blocks.
+type scriptedDNS struct {
+	w       *world
+	dnsaddr map[string][]string // name -> multiaddrs
+	hosts   map[string]string   // name -> IPv4
+}
+
+func (d *scriptedDNS) ResolveDNSAddr(_ context.Context, expected peer.ID, maddr ma.Multiaddr, _, outputLimit int) ([]ma.Multiaddr, error) {
+	name, err := maddr.ValueForProtocol(ma.P_DNSADDR)
+	if err != nil {
+		return nil, err
+	}
+	var out []ma.Multiaddr
+	for _, a := range d.dnsaddr[name] {
+		m := ma.StringCast(a)
+		if id, err := peer.IDFromP2PAddr(m); err == nil && expected != "" && id != expected {
+			continue
+		}
+		if isRelayAddr(m) {
+			d.w.probe("dnsaddr-expanded-to-relay-address")
+		}
+		out = append(out, m)
+	}
+	if len(out) == 0 {
+		return nil, errors.New("scripted resolver: no such name")
+	}
+	if len(out) > outputLimit {
+		out = out[:max(outputLimit, 0)]
+	}
+	return out, nil
+}
+
+func (d *scriptedDNS) ResolveDNSComponent(_ context.Context, maddr ma.Multiaddr, outputLimit int) ([]ma.Multiaddr, error) {
+	first, rest := ma.SplitFirst(maddr)
+	if first == nil || first.Protocol().Code != ma.P_DNS4 {
+		return nil, errors.New("scripted resolver: not a /dns4 address")
+	}
+	ip, ok := d.hosts[first.Value()]
+	if !ok || outputLimit <= 0 {
+		return nil, errors.New("scripted resolver: no such host")
+	}
+	out := ma.StringCast("/ip4/" + ip)
+	if rest != nil {
+		out = out.Encapsulate(rest)
+	}
+	return []ma.Multiaddr{out}, nil
+}
+
 // firewall: a node in mode natFiltered accepts an inbound TCP connection only from an IP it has
 // itself dialled within the last natWindow; natSymmetric never accepts; natOpen always.
 const (
@@ -629,6 +679,13 @@ func runWorld(t *testing.T, tape *simrt.Tape, g simrt.Gen, mode int) *common.Out
 		}
 	}
 	samplePause := []time.Duration{500 * time.Millisecond, 30 * time.Millisecond, 4 * time.Second}[g.Int(3)]
+	// names in A's peerstore for B: 0 none; relay route: 1 a /dnsaddr that expands to B's circuit address next to the literal
+	// circuit address, 2 instead of it, 3 the circuit address with the relay's /dns4 name instead of the literal one;
+	// direct route (only if A knows B's direct address): 1 a /dnsaddr that expands to B's direct address (control), 2 B's /dns4 name
+	var dnsRelay, dnsDirect int
+	if mode != modeRace {
+		dnsRelay, dnsDirect = g.Weighted(3, 1, 1, 1), g.Weighted(3, 1, 1)
+	}
 	aReserves := g.Bool() // A holds a reservation on the relay too, so that B can reach A through it (inbound limited connections on A)
 	if mode == modeA && g.Chance(1, 6) {
 		// bias towards the rarest race: a waiter is woken by a direct connection that is gone again before the waiter looks
@@ -658,7 +715,7 @@ func runWorld(t *testing.T, tape *simrt.Tape, g simrt.Gen, mode int) *common.Out
 		o.Logf("layer B: relay=%d(0 default limits,1 15s limit,2 unlimited) firewall A=%s B=%s latencies=%v directDialTimeout=%v A-knows-B's-direct-address=%v relay-address-advertised=%v wrapped-service=%v security=%s",
 			relayMode, natNames[natA], natNames[natB], latencies, directDialTimeout, knowsDirect, advertiseRelayAddr, w.wrapped, secu)
 	}
-	o.Logf(" A-has-reservation=%v", aReserves)
+	o.Logf(" A-has-reservation=%v names-for-B: relay-route=%d(0 literal,1 +dnsaddr,2 dnsaddr only,3 /dns4 relay host) direct-route=%d(0 literal,1 +dnsaddr,2 +/dns4)", aReserves, dnsRelay, dnsDirect)
 	for c, ops := range callers {
 		for i, s := range ops {
 			o.Logf(" caller%d.%d %v", c, i, s)
@@ -707,6 +764,7 @@ func runWorld(t *testing.T, tape *simrt.Tape, g simrt.Gen, mode int) *common.Out
 			return
 		}
 		defer rl.Close()
+		dns := &scriptedDNS{w: w, dnsaddr: map[string][]string{}, hosts: map[string]string{"relayhost.c12": ipR, "bhost.c12": ipB}}
 		circuitVia := ma.StringCast(fmt.Sprintf("/ip4/%s/tcp/4001/p2p/%s/p2p-circuit", ipR, R.ID))
 
 		mkOpts := func(node int) *basichost.HostOpts {
@@ -728,7 +786,8 @@ func runWorld(t *testing.T, tape *simrt.Tape, g simrt.Gen, mode int) *common.Out
 			return
 		}
 		defer B.Close()
-		A, err := simhost.New(n, simhost.Opts{Key: simhost.DetKey(1), IP: ipA, Port: 4001, Security: secu, WithHost: true, HostOpts: mkOpts(0), Bus: bus, Gater: &recGater{w.v[0]}})
+		A, err := simhost.New(n, simhost.Opts{Key: simhost.DetKey(1), IP: ipA, Port: 4001, Security: secu, WithHost: true, HostOpts: mkOpts(0), Bus: bus, Gater: &recGater{w.v[0]},
+			SwarmOpts: []swarm.Option{swarm.WithMultiaddrResolver(dns)}})
 		if err != nil {
 			o.Trouble = "host A: " + err.Error()
 			return
@@ -832,10 +891,29 @@ func runWorld(t *testing.T, tape *simrt.Tape, g simrt.Gen, mode int) *common.Out
 			}
 			B.PS.AddAddrs(A.ID, []ma.Multiaddr{circuitVia}, peerstore.PermanentAddrTTL)
 		}
-		A.PS.AddAddrs(B.ID, []ma.Multiaddr{circuitVia}, peerstore.PermanentAddrTTL)
-		if knowsDirect {
-			A.PS.AddAddrs(B.ID, []ma.Multiaddr{B.Addr}, peerstore.PermanentAddrTTL)
+		dns.dnsaddr["relay.b.c12"] = []string{fmt.Sprintf("%s/p2p/%s", circuitVia, B.ID)}
+		dns.dnsaddr["direct.b.c12"] = []string{fmt.Sprintf("%s/p2p/%s", B.Addr, B.ID)}
+		var forB []ma.Multiaddr
+		switch dnsRelay {
+		case 0:
+			forB = append(forB, circuitVia)
+		case 1:
+			forB = append(forB, circuitVia, ma.StringCast(fmt.Sprintf("/dnsaddr/relay.b.c12/p2p/%s", B.ID)))
+		case 2:
+			forB = append(forB, ma.StringCast(fmt.Sprintf("/dnsaddr/relay.b.c12/p2p/%s", B.ID)))
+		case 3:
+			forB = append(forB, ma.StringCast(fmt.Sprintf("/dns4/relayhost.c12/tcp/4001/p2p/%s/p2p-circuit", R.ID)))
 		}
+		if knowsDirect {
+			forB = append(forB, B.Addr)
+			switch dnsDirect {
+			case 1:
+				forB = append(forB, ma.StringCast(fmt.Sprintf("/dnsaddr/direct.b.c12/p2p/%s", B.ID)))
+			case 2:
+				forB = append(forB, ma.StringCast("/dns4/bhost.c12/tcp/4001"))
+			}
+		}
+		A.PS.AddAddrs(B.ID, forB, peerstore.PermanentAddrTTL)
 		if !layerB {
 			B.PS.AddAddrs(A.ID, []ma.Multiaddr{A.Addr}, peerstore.PermanentAddrTTL)
 		}
